@@ -253,7 +253,11 @@ func (v *vdrRun) forkDisk(f *core.VerifVdrFork, tree map[string]vdrEnt, useEver 
 		} else if f.Split && strings.HasPrefix(job, "chnk") {
 			kind = "c"
 		}
-		parts = append(parts, fmt.Sprintf("%s:%d:%s", hx(path.Join(v.psdir, rel)), sizeAsWalked(rel, src[rel]), kind))
+		ent := fmt.Sprintf("%s:%d:%s", hx(path.Join(v.psdir, rel)), sizeAsWalked(rel, src[rel]), kind)
+		if alts := src[rel].Alts; len(alts) > 0 {
+			ent += ":" + hxList(alts)
+		}
+		parts = append(parts, ent)
 	}
 	if len(parts) == 0 {
 		return "."
@@ -432,7 +436,7 @@ func (v *vdrRun) modelChecks() {
 		}
 		// ---- (B) the whole life of the fork replayed from the initial bookkeeping
 		init, ok := v.initView[f.Node]
-		if !ok || v.r.Inc > 0 {
+		if !ok || (v.r.Inc > 0 && !v.retried) || len(v.spec.CrashAt) > 0 {
 			continue
 		}
 		var args []string
@@ -466,7 +470,7 @@ func (v *vdrRun) modelChecks() {
 		req := []string{"C04.run", vdrFlags(f), vdrHexAssoc(an.Names, false), vdrHexAssoc(an.Files, false),
 			vdrHexAssoc(init.FileArgs, true), vdrHexAssoc(init.FilePostNodes, false), "none",
 			v.forkDisk(f, nil, true), ".", "0|0", ".", strings.Join(evs, ",")}
-		v.res.Checks = append(v.res.Checks, VdrModelCheck{Name: "fork_life_replay", Req: req,
+		v.res.Checks = append(v.res.Checks, VdrModelCheck{Name: "fork_life_replay", Req: req, DiskOnly: v.r.Inc > 0,
 			Expect: v.expectState(g, removed, postRep, allPaths),
 			What:   "the whole VDR life of " + f.Fqname + " replayed from the initial bookkeeping (all consumers done, then the final kill): surviving entries, report totals, remaining bookkeeping"})
 	}
